@@ -174,8 +174,29 @@ func Run(w *core.WorkerCtx, k int, prop string) *core.CaseResult {
 		workload, downID = "down-then-up", r.Intn(nT)
 		spec.Down = []int{downID}
 	}
+	if special && prop == "C03" && (k-baseCases(w.Tier))%2 == 1 {
+		// a target appears in the configuration when the coordinator has been up for longer than its start-up
+		// window (--sd.init-timeout): it has to be probed and assigned like any other
+		workload, downID = "late-add", -1
+		spec.Down, spec.InitTimeout = nil, "8s"
+	}
 	if special && prop == "C06" {
 		workload, fault = "steady", "reload-then-wipe-sidecar"
+		if (k-baseCases(w.Tier))%2 == 1 {
+			// sidecars in file mode (the binary's default): a configuration roll-out reaches a shard whose Prometheus
+			// refuses the reload at that moment
+			fault, spec.FileMode = "rollout-while-prometheus-refuses-reload", true
+		}
+	}
+	if prop == "C20" {
+		// one target answers 503 for good (its probe must be retried every retry interval, also when the coordinator
+		// has been up for a long time), another one appears after the start-up window
+		workload, fault = "late-add", "none"
+		downID = r.Intn(nT)
+		spec.Down, spec.InitTimeout = []int{downID}, []string{"8s", "6s"}[k%2]
+	}
+	if prop == "C01" {
+		workload, fault = "steady", "restart-coordinator+watch"
 	}
 	if prop == "C04" {
 		// bodies of 80-130 KB (the parsers read them in 64 KiB blocks), a process-series limit that two of them
@@ -192,6 +213,9 @@ func Run(w *core.WorkerCtx, k int, prop string) *core.CaseResult {
 		}
 		spec.Sizes[nT] = [2]int{100, 8000 + r.Intn(2000)}
 		nT++
+		// the first answer of one big target breaks off after 40 lines with a TCP reset (the exporter was killed):
+		// that is a failed probe, its 40 lines are no estimate
+		spec.ResetFirst = []int{r.Intn(nT - 1)}
 	}
 	res.Sig = fmt.Sprintf("real-loop/%s/%s/%v", workload, fault, spec.Sizes)
 	dir := filepath.Join(w.Scratch, fmt.Sprintf("e7-%s-%d", prop, k))
@@ -309,6 +333,38 @@ func Run(w *core.WorkerCtx, k int, prop string) *core.CaseResult {
 		}
 		l.SetDown(downID, false)
 		note("target %d serves again", downID)
+	case "late-add":
+		for l.CoordinatorUptime() < l.InitTimeout()+3*time.Second && time.Now().Before(watchdog) {
+			l.ScrapeAll()
+			time.Sleep(100 * time.Millisecond)
+		}
+		hits0 := 0
+		if downID >= 0 {
+			hits0 = l.Hits(downID)
+		}
+		if err := l.Reconfigure(map[int][2]int{next: {15, 3}}, nil); err != nil {
+			res.Inconcl = err.Error()
+			return finish()
+		}
+		note("target %d added %v after the coordinator started (its start-up window is %v)", next, l.CoordinatorUptime().Round(time.Second), l.InitTimeout())
+		res.AddStat("real_loop_targets_added_after_the_start_up_window", 1)
+		if prop == "C20" && downID >= 0 {
+			// the failing target is probed again within the retry interval (5 s) - bounded here by 150 cycles
+			c0 := l.Cycles()
+			for l.Hits(downID) == hits0 {
+				if l.Cycles()-c0 > 150 {
+					res.Violate("C20/real-loop/failed-probe-not-retried", "target %d has answered 503 since the start; after the coordinator had been up for %v (start-up window %v) it received no further probe during 150 coordination cycles (retry interval 5 s)", downID, l.CoordinatorUptime().Round(time.Second), l.InitTimeout())
+					return finish()
+				}
+				if time.Now().After(watchdog) {
+					res.Inconcl = "watchdog while waiting for a retry of the failing target"
+					return finish()
+				}
+				l.ScrapeAll()
+				time.Sleep(60 * time.Millisecond)
+			}
+			res.AddStat("real_loop_retries_seen_after_the_start_up_window", 1)
+		}
 	case "add-target":
 		_ = next
 		addSz := [2]int{20, 0}
@@ -379,6 +435,86 @@ func Run(w *core.WorkerCtx, k int, prop string) *core.CaseResult {
 			return finish()
 		}
 		note("configuration reloaded (added: %v); four cycles later the sidecar of shard %d (holding %d targets) came back on an empty volume", add, i, len(snap[i]))
+	case "rollout-while-prometheus-refuses-reload":
+		snap, err := l.Snapshot()
+		if err != nil {
+			res.Inconcl = "snapshot: " + err.Error()
+			return finish()
+		}
+		// the shard that holds the lowest target id; that target is removed by the roll-out, another one is added
+		victim, gone := -1, -1
+		for id := 0; id < nT && victim < 0; id++ {
+			for i, m := range snap {
+				if _, ok := m[id]; ok {
+					victim, gone = i, id
+					break
+				}
+			}
+		}
+		if victim < 0 {
+			res.Inconcl = "no shard holds a target after the initial convergence"
+			return finish()
+		}
+		l.FailPrometheusReload(victim, true)
+		err = l.Reconfigure(map[int][2]int{next: {10, 2}}, []int{gone})
+		l.FailPrometheusReload(victim, false)
+		if err != nil {
+			res.Inconcl = err.Error()
+			return finish()
+		}
+		note("file mode: configuration rolled out (target %d removed, target %d added) while the Prometheus of shard %d answered 500 to /-/reload; it is fine again afterwards", gone, next, victim)
+	case "restart-coordinator+watch":
+		// C01 on the real binaries: the coordinator process restarts while the sidecars keep their targets and the
+		// configuration is unchanged; from then on every snapshot must show every target on some shard
+		snap0, err := l.Snapshot()
+		if err != nil {
+			res.Inconcl = "snapshot: " + err.Error()
+			return finish()
+		}
+		held := map[int]bool{}
+		for _, m := range snap0 {
+			for id := range m {
+				if id >= 0 {
+					held[id] = true
+				}
+			}
+		}
+		if err := l.RestartCoordinator(); err != nil {
+			res.Inconcl = "restart coordinator: " + err.Error()
+			return finish()
+		}
+		note("coordinator killed and restarted; %d targets are listed by the shards", len(held))
+		c0 := l.Cycles()
+		for l.Cycles() < c0+25 {
+			if time.Now().After(watchdog) {
+				res.Inconcl = fmt.Sprintf("watchdog: %d cycles of the restarted coordinator seen", l.Cycles()-c0)
+				return finish()
+			}
+			if ok, msg := l.CoordinatorAlive(); !ok {
+				res.Violate("C01/real-loop/coordinator-died", "the restarted coordinator exited: %s", msg)
+				return finish()
+			}
+			snap, err := l.Snapshot()
+			if err != nil {
+				res.Inconcl = "snapshot: " + err.Error()
+				return finish()
+			}
+			res.AddStat("real_loop_snapshots_after_a_coordinator_restart", 1)
+			for id := range held {
+				on := false
+				for _, m := range snap {
+					if _, ok := m[id]; ok {
+						on = true
+					}
+				}
+				if !on {
+					res.Violate("C01/real-loop/orphaned-after-coordinator-restart", "target %d was listed by a shard when the coordinator process restarted, is still configured, and %d cycle(s) of the new coordinator later no shard lists it (snapshot: %s)", id, l.Cycles()-c0, snapKey(snap))
+					return finish()
+				}
+			}
+			l.ScrapeAll()
+			time.Sleep(20 * time.Millisecond)
+		}
 	case "restart-coordinator":
 		if err := l.RestartCoordinator(); err != nil {
 			res.Inconcl = "restart coordinator: " + err.Error()
@@ -416,8 +552,8 @@ func Run(w *core.WorkerCtx, k int, prop string) *core.CaseResult {
 		l.ScrapeAll()
 	}
 	for _, id := range l.Targets() {
-		if l.TrueTotal(id) >= spec.MaxProc {
-			continue // never assigned: too big for any shard
+		if l.TrueTotal(id) >= spec.MaxProc || l.IsDown(id) {
+			continue // never assigned: too big for any shard, or it has never answered a probe
 		}
 		if l.Hits(id) == before[id] {
 			res.Violate(prop+"/real-loop/converged-but-not-scraped", "target %d is listed by a shard in normal state but three scrape rounds of every shard's Prometheus sent no request to it", id)
